@@ -23,6 +23,10 @@ pub enum Op {
     PtrRel(i64),
     /// `check_ptr(current_ptr() + off cells)` must agree with `check(off)`
     CheckPtr(i64),
+    /// A growth request no allocator can serve (`write(off, 1)` if the flag is set, else
+    /// `make_accessible(off, off + 1)`, with `off` at least 2^44 cells away), made in a forked
+    /// child under `catch_unwind`: the child aborts, or panics and leaves the tape as it was.
+    Impossible(i64, bool),
 }
 
 #[derive(Clone, Debug, PartialEq)]
@@ -43,6 +47,7 @@ impl Op {
             Op::Check(o) => json!(["check", o]),
             Op::PtrRel(k) => json!(["set_current_ptr_rel", k]),
             Op::CheckPtr(o) => json!(["check_ptr", o]),
+            Op::Impossible(o, w) => json!(["impossible_growth", o, w]),
         }
     }
 
@@ -57,6 +62,7 @@ impl Op {
             "check" => Op::Check(n(1)?),
             "set_current_ptr_rel" => Op::PtrRel(n(1)?),
             "check_ptr" => Op::CheckPtr(n(1)?),
+            "impossible_growth" => Op::Impossible(n(1)?, a.get(2)?.as_bool()?),
             _ => return None,
         })
     }
@@ -93,7 +99,7 @@ impl TapeCheck {
         let mut s = self.ops.len() * 1000;
         for o in &self.ops {
             s += match *o {
-                Op::Mov(o) | Op::Read(o) | Op::Check(o) | Op::PtrRel(o) | Op::CheckPtr(o) => mag(o),
+                Op::Mov(o) | Op::Read(o) | Op::Check(o) | Op::PtrRel(o) | Op::CheckPtr(o) | Op::Impossible(o, _) => mag(o),
                 Op::Write(o, v) => mag(o) + (v > 1) as usize,
                 Op::Access(a, b) => mag(a) + mag(b),
             };
@@ -128,6 +134,14 @@ impl TapeCheck {
                 Op::Check(x) if x != 0 => alts.extend([Op::Check(half(x)), Op::Check(x - x.signum())]),
                 Op::PtrRel(x) if x != 0 => alts.extend([Op::PtrRel(half(x)), Op::Mov(x)]),
                 Op::CheckPtr(x) if x != 0 => alts.extend([Op::CheckPtr(half(x)), Op::Check(x)]),
+                Op::Impossible(x, w) => {
+                    if x.unsigned_abs() > 1 << 44 {
+                        alts.push(Op::Impossible(x.signum() << 44, w));
+                    }
+                    if !w {
+                        alts.push(Op::Impossible(x, true));
+                    }
+                }
                 _ => {}
             }
             for a in alts {
@@ -155,6 +169,10 @@ impl TapeCheck {
     }
 }
 
+/// Cells further than this from the origin are never written or requested (the tape is one
+/// contiguous block, so reaching them would need that many cells of memory).
+const FAR_LIMIT: u64 = 16_000_000;
+
 struct Model {
     cells: BTreeMap<i64, u64>,
     p: i64,
@@ -176,22 +194,27 @@ fn run_history<C: CellType>(c: &TapeCheck, v: &mut Verdict) {
     let mut grew_then_read_back = false;
     let mut growths = 0u64;
     let mut touched: Vec<i64> = Vec::new();
+    let mut skipped = 0u64;
+    let mut far_probes = 0u64;
+    let mut impossible = 0u64;
+    let near = |cell: i64| cell.unsigned_abs() <= FAR_LIMIT;
     for (i, op) in c.ops.iter().enumerate() {
         let req_before = galloc::requests();
         match *op {
             Op::Mov(o) => {
                 galloc::with_zone(g, || mem.mov(o as isize));
-                model.p += o;
+                model.p = model.p.wrapping_add(o);
             }
             Op::Read(o) => {
+                far_probes += !near(model.p.wrapping_add(o)) as u64;
                 let got = galloc::with_zone(g, || mem.read(o as isize)).into_u64();
-                let want = model.cells.get(&(model.p + o)).copied().unwrap_or(0);
+                let want = model.cells.get(&model.p.wrapping_add(o)).copied().unwrap_or(0);
                 if c.alloc.guard && galloc::requests() != req_before {
                     v.fail("read-allocated", i, format!("op {}: read({}) made the allocator serve a request", i, o));
                     return;
                 }
                 if got != want {
-                    v.fail("wrong-read", i, format!("op {}: read({}) at logical cell {} returned {} but the last value written there is {}", i, o, model.p + o, got, want));
+                    v.fail("wrong-read", i, format!("op {}: read({}) at logical cell {} returned {} but the last value written there is {}", i, o, model.p.wrapping_add(o), got, want));
                     return;
                 }
                 if want != 0 && growths > 0 {
@@ -199,11 +222,21 @@ fn run_history<C: CellType>(c: &TapeCheck, v: &mut Verdict) {
                 }
             }
             Op::Write(o, val) => {
+                // a write makes the tape span reach the cell: cells further than FAR_LIMIT from
+                // the origin are only ever read, tested and moved to (they cannot be allocated)
+                if !near(model.p.wrapping_add(o)) {
+                    skipped += 1;
+                    continue;
+                }
                 galloc::with_zone(g, || mem.write(o as isize, C::from_u64(val & m)));
                 model.cells.insert(model.p + o, val & m);
                 touched.push(model.p + o);
             }
             Op::Access(s, e) => {
+                if !near(model.p.wrapping_add(s)) || !near(model.p.wrapping_add(e)) {
+                    skipped += 1;
+                    continue;
+                }
                 galloc::with_zone(g, || mem.make_accessible(s as isize, e as isize));
                 if s < e {
                     let lo = galloc::with_zone(g, || mem.check(s as isize));
@@ -215,9 +248,14 @@ fn run_history<C: CellType>(c: &TapeCheck, v: &mut Verdict) {
                 }
             }
             Op::Check(o) => {
+                far_probes += !near(model.p.wrapping_add(o)) as u64;
                 let ok = galloc::with_zone(g, || mem.check(o as isize));
                 if c.alloc.guard && galloc::requests() != req_before {
                     v.fail("check-allocated", i, format!("op {}: check({}) made the allocator serve a request", i, o));
+                    return;
+                }
+                if ok && !near(model.p.wrapping_add(o)) {
+                    v.fail("far-cell-accessible", i, format!("op {}: check({}) reports logical cell {} accessible, which no write or accessibility request ever came near", i, o, model.p.wrapping_add(o)));
                     return;
                 }
                 if ok {
@@ -232,11 +270,100 @@ fn run_history<C: CellType>(c: &TapeCheck, v: &mut Verdict) {
                 }
             }
             Op::PtrRel(k) => {
+                // pointers only stand for cells within the address space around the block
+                if !near(model.p) || !near(model.p.wrapping_add(k)) {
+                    skipped += 1;
+                    continue;
+                }
                 let p = mem.current_ptr().wrapping_offset(k as isize);
                 galloc::with_zone(g, || mem.set_current_ptr(p));
                 model.p += k;
             }
+            Op::Impossible(_, _) if cfg!(miri) => skipped += 1, // no fork under Miri
+            Op::Impossible(o, as_write) => {
+                impossible += 1;
+                // only with the pointer near the origin and a distance in 2^44..=2^62, where
+                // the request is well defined and cannot be served
+                if !near(model.p) || !(1u64 << 44..=1u64 << 62).contains(&o.unsigned_abs()) {
+                    skipped += 1;
+                    continue;
+                }
+                let mut sample: Vec<i64> = touched.iter().rev().take(8).copied().collect();
+                sample.extend([model.p, model.p + 1, model.p - 1]);
+                let before: Vec<(i64, u64, bool)> = sample
+                    .iter()
+                    .map(|&cell| {
+                        let rel = cell.wrapping_sub(model.p) as isize;
+                        (cell, mem.read(rel).into_u64(), mem.check(rel))
+                    })
+                    .collect();
+                let p0 = model.p;
+                let end = crate::isolate::run_forked(
+                    || {
+                        let r = std::panic::catch_unwind(std::panic::AssertUnwindSafe(|| {
+                            galloc::with_zone(g, || {
+                                if as_write {
+                                    mem.write(o as isize, C::from_u64(1))
+                                } else {
+                                    mem.make_accessible(o as isize, (o + 1) as isize)
+                                }
+                            })
+                        }));
+                        if r.is_ok() {
+                            return "returned".to_string();
+                        }
+                        // the panic was caught: the tape must be what it was
+                        if galloc::with_zone(g, || mem.check(o as isize)) {
+                            return format!("stale check({}) reports the cell accessible after the request panicked", o);
+                        }
+                        for &(cell, val, acc) in &before {
+                            let rel = cell.wrapping_sub(p0) as isize;
+                            let (v2, a2) = galloc::with_zone(g, || (mem.read(rel).into_u64(), mem.check(rel)));
+                            if v2 != val || a2 != acc {
+                                return format!("stale logical cell {} read {} accessible {} before the request, {} / {} after it panicked", cell, val, acc, v2, a2);
+                            }
+                        }
+                        // and it must still work
+                        galloc::with_zone(g, || mem.write(0, C::from_u64(1)));
+                        if galloc::with_zone(g, || mem.read(0)).into_u64() != 1 {
+                            return "stale a write after the panicked request does not read back".to_string();
+                        }
+                        "panic".to_string()
+                    },
+                    std::time::Duration::from_secs(20),
+                );
+                use crate::isolate::ChildEnd;
+                match end {
+                    ChildEnd::Exited(pl) if pl == "panic" => v.bump("impossible_growth_ended_by_panic"),
+                    ChildEnd::Exited(pl) if pl == "returned" => {
+                        v.fail("impossible-growth-returned", i, format!("op {}: a request for a cell {} cells away returned normally", i, o));
+                        return;
+                    }
+                    ChildEnd::Exited(pl) => {
+                        v.fail("stale-tape-after-panic", i, format!("op {}: request for a cell {} cells away: {}", i, o, pl.trim_start_matches("stale ")));
+                        return;
+                    }
+                    ChildEnd::Died { sig, status } => {
+                        let name = sig.as_deref().and_then(|x| x.split_whitespace().next()).unwrap_or("").to_string();
+                        if name == "ABRT" {
+                            v.bump("impossible_growth_ended_by_abort");
+                        } else {
+                            let class = crate::parent::crash_class(sig.as_deref(), Some(&status.to_string()));
+                            v.fail(&class, i, format!("op {}: request for a cell {} cells away: the process died by {:?}, not by the allocation-failure abort or a panic", i, o, sig));
+                            return;
+                        }
+                    }
+                    ChildEnd::Hang => {
+                        v.fail("hang", i, format!("op {}: request for a cell {} cells away did not end within 20 s", i, o));
+                        return;
+                    }
+                }
+            }
             Op::CheckPtr(o) => {
+                if !near(model.p) || !near(model.p.wrapping_add(o)) {
+                    skipped += 1;
+                    continue;
+                }
                 let p = mem.current_ptr().wrapping_offset(o as isize);
                 let a = galloc::with_zone(g, || mem.check_ptr(p));
                 let b = galloc::with_zone(g, || mem.check(o as isize));
@@ -256,7 +383,7 @@ fn run_history<C: CellType>(c: &TapeCheck, v: &mut Verdict) {
     for &cell in &touched {
         for d in -3..=3i64 {
             let idx = cell + d;
-            let got = galloc::with_zone(g, || mem.read((idx - model.p) as isize)).into_u64();
+            let got = galloc::with_zone(g, || mem.read(idx.wrapping_sub(model.p) as isize)).into_u64();
             let want = model.cells.get(&idx).copied().unwrap_or(0);
             if got != want {
                 v.fail("wrong-read", c.ops.len(), format!("final sweep: logical cell {} reads {} but should be {}", idx, got, want));
@@ -264,8 +391,13 @@ fn run_history<C: CellType>(c: &TapeCheck, v: &mut Verdict) {
             }
         }
     }
-    v.nontrivial = growths >= 1 && grew_then_read_back;
+    v.nontrivial = (growths >= 1 && grew_then_read_back) || (c.prop == "C17" && impossible > 0 && growths >= 1);
+    if impossible > 0 {
+        v.add("fired_impossible_growth_request", impossible);
+    }
     v.add("growths", growths);
+    v.add("ops_outside_history_space", skipped);
+    v.add("reads_and_checks_of_far_cells", far_probes);
     galloc::with_zone(g, || drop(mem));
 }
 
@@ -349,18 +481,86 @@ pub fn generate(rng: &mut Rng, prop: &str) -> TapeCheck {
         }
         Some((lo, hi))
     };
-    for _ in 0..n {
+    // far excursions: the pointer (or one offset) goes to the other end of the index space,
+    // where cells are only read, tested and moved to, and comes back
+    let far_dist = |rng: &mut Rng| -> i64 {
+        let base = match rng.below(8) {
+            0 => i64::MIN,
+            1 => i64::MAX,
+            2 => 3i64 << 61,
+            3 => (1i64 << 62) + (1i64 << 61),
+            _ => 1i64 << *rng.pick(&[31u32, 32, 33, 40, 47, 48, 56, 60, 61, 62]),
+        };
+        let base = if rng.coin() { base } else { base.wrapping_neg() };
+        base.wrapping_add(*rng.pick(&[0i64, 0, 0, 1, -1, 2, -2, 4096, -4096]))
+    };
+    let with_far = rng.chance(1, 6);
+    let mut away: Option<i64> = None;
+    for step in 0..n {
+        if with_far {
+            if let Some(h) = away {
+                let small = rng.range(-40, 40);
+                let op = if step + 1 == n || rng.chance(1, 3) {
+                    away = None;
+                    Op::Mov(h.wrapping_neg())
+                } else {
+                    match rng.below(6) {
+                        0 | 1 => Op::Read(small),
+                        2 => Op::Check(small),
+                        // cells near the origin seen from far away
+                        3 | 4 => Op::Read(small.wrapping_sub(h)),
+                        _ => Op::Write(small.wrapping_sub(h), 1 + rng.below(255)),
+                    }
+                };
+                match op {
+                    Op::Mov(o) => live.mov(o as isize),
+                    Op::Write(o, v) => live.write(o as isize, v as u8),
+                    _ => {}
+                }
+                ops.push(op);
+                continue;
+            }
+            if rng.chance(1, 4) {
+                let h = far_dist(rng);
+                let op = match rng.below(4) {
+                    0 => Op::Read(h),
+                    1 => Op::Check(h),
+                    _ if step + 1 < n => {
+                        away = Some(h);
+                        live.mov(h as isize);
+                        Op::Mov(h)
+                    }
+                    _ => Op::Read(h),
+                };
+                ops.push(op);
+                continue;
+            }
+        }
         // edges reported by the implementation under test are only used if they are sane,
         // so that a broken `check` cannot make the generator ask for absurd allocations
         let e = edges(&mut live).filter(|&(lo, hi)| lo >= -6_000_000 && hi <= 6_000_000 && lo <= 0 && hi >= 0);
         let mut off = |rng: &mut Rng| -> i64 {
             match (rng.below(10), e) {
                 (0..=2, _) => rng.range(-3, 3),
-                (3..=5, Some((lo, hi))) => {
+                (3..=4, Some((lo, hi))) => {
                     if rng.coin() {
                         lo + rng.range(-2, 2)
                     } else {
                         hi + rng.range(-2, 2)
+                    }
+                }
+                // beyond an edge by a fraction of the current size (geometric growth decides)
+                (5, Some((lo, hi))) => {
+                    let span = hi - lo + 1;
+                    let d = match rng.below(3) {
+                        0 => rng.range(0, span / 8 + 1),
+                        1 => rng.range(span / 8, span / 2 + 1),
+                        _ => rng.range(span / 4, span + 1),
+                    };
+                    if rng.coin() {
+                        lo - d
+                    } else {
+                        hi + d
                     }
                 }
                 (6, _) => rng.range(-far_max, far_max),
@@ -382,10 +582,23 @@ pub fn generate(rng: &mut Rng, prop: &str) -> TapeCheck {
             10 | 11 => {
                 let a = off(rng);
                 let b = off(rng);
-                match rng.below(4) {
-                    0 => Op::Access(a.min(b), a.max(b) + 1), // may extend below and above at once
-                    1 => Op::Access(a, a + rng.range(0, 4)),
-                    2 => Op::Access(-rng.range(0, far_max / 2 + 1), rng.range(1, far_max / 2 + 1)),
+                match (rng.below(6), e) {
+                    // both ends at once, each beyond its edge by its own fraction of the size
+                    (4 | 5, Some((lo, hi))) => {
+                        let span = hi - lo + 1;
+                        let mut d = |rng: &mut Rng| match rng.below(4) {
+                            0 => rng.range(1, 3),
+                            1 => rng.range(1, span / 16 + 2),
+                            2 => rng.range(span / 8, span / 4 + 2),
+                            _ => rng.range(span / 4, span / 2 + 2),
+                        };
+                        let below = d(rng);
+                        let above = d(rng);
+                        Op::Access(lo - below, hi + 1 + above)
+                    }
+                    (0 | 4, _) => Op::Access(a.min(b), a.max(b) + 1), // may extend below and above at once
+                    (1, _) => Op::Access(a, a + rng.range(0, 4)),
+                    (2 | 5, _) => Op::Access(-rng.range(0, far_max / 2 + 1), rng.range(1, far_max / 2 + 1)),
                     _ => Op::Access(a, b), // possibly empty or reversed
                 }
             }
@@ -423,4 +636,28 @@ pub fn generate(rng: &mut Rng, prop: &str) -> TapeCheck {
         AllocPlan::OFF
     };
     TapeCheck { prop: prop.to_string(), width, ops, alloc }
+}
+
+/// C17 at the API level: a generated history with one request that cannot be served,
+/// placed where the pointer is near the origin.
+pub fn generate_impossible(rng: &mut Rng, prop: &str) -> TapeCheck {
+    let mut c = generate(rng, prop);
+    let mut pos = 0i64;
+    let mut places = vec![0usize];
+    for (i, op) in c.ops.iter().enumerate() {
+        if let Op::Mov(o) | Op::PtrRel(o) = *op {
+            pos = pos.wrapping_add(o);
+        }
+        if pos.unsigned_abs() <= 8_000_000 {
+            places.push(i + 1);
+        }
+    }
+    // mostly late, so that the tape has grown before
+    let at = if rng.coin() { *places.last().unwrap() } else { *rng.pick(&places) };
+    // (from about 2^60 cells on the byte size no longer fits a Layout: panic instead of abort)
+    let exp = if rng.coin() { rng.range(58, 61) } else { rng.range(44, 61) };
+    let dist = (1i64 << exp) + *rng.pick(&[0i64, 0, 1, -1, 12345]);
+    let dist = if rng.coin() { dist } else { -dist };
+    c.ops.insert(at, Op::Impossible(dist, rng.chance(2, 3)));
+    c
 }
